@@ -72,6 +72,9 @@ func bindValues(r *prng.R) []byte {
 	if sel == ":all" {
 		tgt = "slice"
 	}
+	if r.Chance(1, 5) {
+		bt = prng.Pick(r, []string{"nosuch", "extras", "point"}) // no toplevel block of this type (perhaps only a child block)
+	}
 	fmt.Fprintf(&sb, "bind %s%s -> %s\n", bt, sel, tgt)
 	return []byte(sb.String())
 }
